@@ -1,9 +1,18 @@
-"""Seams: substitute the module attributes curtsies reaches the outside world
-through (DESIGN.md 2.2).  Installed once per process; every call dispatches to
-the World bound for the current run.  Nothing in /repo is edited.
+"""Seams: route everything curtsies does to the outside world into the simulator
+(DESIGN.md 2.2).  Nothing in /repo is edited.
+
+The library reaches the world through os / select / fcntl / termios / tty / signal /
+time / locale.  Those functions are replaced *process-wide* by dispatchers that go to
+the bound simulated kernel when a World is bound and the call concerns a simulated
+descriptor (or, for calls without a descriptor, whenever a World is bound), and to the
+real function otherwise.  Being installed before curtsies is imported, they also cover
+`from os import read`-style imports, so a refactoring of import style or of module
+layout in curtsies cannot route around the simulator (or crash the harness).
 """
 
+import collections
 import fcntl as _fcntl
+import locale as _locale
 import logging
 import os as _os
 import select as _select
@@ -20,6 +29,154 @@ for _v in ("NO_COLOR", "FORCE_COLOR", "CLICOLOR_FORCE", "LINES", "COLUMNS"):
 if sys.path[0] != REPO:
     sys.path.insert(0, REPO)
 
+_W = None          # the bound World
+_K = None          # its Kernel
+_encoding = ["utf-8"]
+
+_R = {             # the real functions
+    "os.read": _os.read, "os.write": _os.write, "os.close": _os.close, "os.pipe": _os.pipe,
+    "os.set_blocking": _os.set_blocking, "os.get_blocking": _os.get_blocking,
+    "select.select": _select.select, "fcntl.fcntl": _fcntl.fcntl,
+    "termios.tcgetattr": _termios.tcgetattr, "termios.tcsetattr": _termios.tcsetattr,
+    "signal.signal": _signal.signal, "signal.getsignal": _signal.getsignal, "signal.set_wakeup_fd": _signal.set_wakeup_fd,
+    "time.time": _time.time, "time.monotonic": _time.monotonic, "time.sleep": _time.sleep,
+    "locale.getpreferredencoding": _locale.getpreferredencoding,
+}
+
+
+def _fdof(x):
+    if isinstance(x, int):
+        return x
+    f = getattr(x, "fileno", None)
+    return f() if f is not None else None
+
+
+def _sim(fd):
+    k = _K
+    return k is not None and fd in k.fds
+
+
+def _os_read(fd, n):
+    if _K is not None and fd in _K.fds:
+        return _K.read(fd, n)
+    return _R["os.read"](fd, n)
+
+
+def _os_write(fd, data):
+    if _K is not None and fd in _K.fds:
+        return _K.write(fd, data)
+    return _R["os.write"](fd, data)
+
+
+def _os_close(fd):
+    if _K is not None and fd in _K.fds:
+        return _K.close(fd)
+    return _R["os.close"](fd)
+
+
+def _os_pipe():
+    if _K is not None:
+        return _K.pipe()
+    return _R["os.pipe"]()
+
+
+def _os_set_blocking(fd, blocking):
+    if _K is not None and fd in _K.fds:
+        return _K.set_blocking(fd, blocking)
+    return _R["os.set_blocking"](fd, blocking)
+
+
+def _os_get_blocking(fd):
+    if _K is not None and fd in _K.fds:
+        return _K.get_blocking(fd)
+    return _R["os.get_blocking"](fd)
+
+
+def _select_select(r, w, x, timeout=None):
+    k = _K
+    if k is not None:
+        for o in r:
+            fd = o if isinstance(o, int) else _fdof(o)
+            if fd in k.fds or (isinstance(fd, int) and fd >= 1000):
+                return k.select(r, w, x, timeout)
+    return _R["select.select"](r, w, x, timeout)
+
+
+def _fcntl_fcntl(fd, cmd, arg=0):
+    if _K is not None and _fdof(fd) in _K.fds:
+        return _K.fcntl(fd, cmd, arg)
+    return _R["fcntl.fcntl"](fd, cmd, arg)
+
+
+def _tcgetattr(fd):
+    if _K is not None and _fdof(fd) in _K.fds:
+        return _K.tcgetattr(fd)
+    return _R["termios.tcgetattr"](fd)
+
+
+def _tcsetattr(fd, when, attrs):
+    if _K is not None and _fdof(fd) in _K.fds:
+        return _K.tcsetattr(fd, when, attrs)
+    return _R["termios.tcsetattr"](fd, when, attrs)
+
+
+def _signal_signal(signum, handler):
+    if _K is not None:
+        return _K.sig.signal(signum, handler)
+    return _R["signal.signal"](signum, handler)
+
+
+def _signal_getsignal(signum):
+    if _K is not None:
+        return _K.sig.getsignal(signum)
+    return _R["signal.getsignal"](signum)
+
+
+def _signal_set_wakeup_fd(fd, **kw):
+    if _K is not None:
+        return _K.sig.set_wakeup_fd(fd, **kw)
+    return _R["signal.set_wakeup_fd"](fd, **kw)
+
+
+def _time_time():
+    if _W is not None:
+        return _W.time()
+    return _R["time.time"]()
+
+
+def _time_monotonic():
+    if _W is not None:
+        return _W.time()
+    return _R["time.monotonic"]()
+
+
+def _time_sleep(s):
+    if _W is not None:
+        _W.block_until(lambda: False, _W.now + s, "sleep")
+        return None
+    return _R["time.sleep"](s)
+
+
+def _getpreferredencoding(do_setlocale=True):
+    if _W is not None:
+        return _encoding[0]
+    return _R["locale.getpreferredencoding"](do_setlocale)
+
+
+def _install_global():
+    _os.read, _os.write, _os.close, _os.pipe = _os_read, _os_write, _os_close, _os_pipe
+    _os.set_blocking, _os.get_blocking = _os_set_blocking, _os_get_blocking
+    _select.select = _select_select
+    _fcntl.fcntl = _fcntl_fcntl
+    _termios.tcgetattr, _termios.tcsetattr = _tcgetattr, _tcsetattr
+    _tty.tcgetattr, _tty.tcsetattr = _tcgetattr, _tcsetattr
+    _signal.signal, _signal.getsignal, _signal.set_wakeup_fd = _signal_signal, _signal_getsignal, _signal_set_wakeup_fd
+    _time.time, _time.monotonic, _time.sleep = _time_time, _time_monotonic, _time_sleep
+    _locale.getpreferredencoding = _getpreferredencoding
+
+
+_install_global()
+
 import blessed  # noqa: E402
 import blessed.terminal  # noqa: E402
 import curtsies  # noqa: E402
@@ -33,67 +190,6 @@ if not _cf.startswith(_os.path.realpath(REPO) + _os.sep):
     raise RuntimeError("curtsies imported from %s, not from %s" % (_cf, REPO))
 
 logging.disable(logging.CRITICAL)
-
-_W = None          # the bound World
-_K = None          # its Kernel
-
-
-class Proxy:
-    """module stand-in: overridden names go to the simulator, the rest (constants,
-    exception types, helpers) to the real module."""
-
-    def __init__(self, real, overrides):
-        self.__dict__["_real"] = real
-        self.__dict__.update(overrides)
-
-    def __getattr__(self, name):
-        return getattr(self._real, name)
-
-
-def _k():
-    if _K is None:
-        raise RuntimeError("seam call outside a bound simulated world")
-    return _K
-
-
-os_proxy = Proxy(_os, {
-    "read": lambda fd, n: _k().read(fd, n),
-    "write": lambda fd, data: _k().write(fd, data),
-    "close": lambda fd: _k().close(fd),
-    "pipe": lambda: _k().pipe(),
-    "set_blocking": lambda fd, b: _k().set_blocking(fd, b),
-    "get_blocking": lambda fd: _k().get_blocking(fd),
-})
-select_proxy = Proxy(_select, {
-    "select": lambda r, w, x, timeout=None: _k().select(r, w, x, timeout),
-})
-signal_proxy = Proxy(_signal, {
-    "signal": lambda signum, handler: _k().sig.signal(signum, handler),
-    "getsignal": lambda signum: _k().sig.getsignal(signum),
-    "set_wakeup_fd": lambda fd, **kw: _k().sig.set_wakeup_fd(fd, **kw),
-})
-termios_proxy = Proxy(_termios, {
-    "tcgetattr": lambda fd: _k().tcgetattr(fd),
-    "tcsetattr": lambda fd, when, attrs: _k().tcsetattr(fd, when, attrs),
-})
-tty_proxy = Proxy(_tty, {
-    "setcbreak": lambda fd, when=_termios.TCSAFLUSH: _k().setcbreak(fd, when),
-    "setraw": lambda fd, when=_termios.TCSAFLUSH: _k().setraw(fd, when),
-    "tcgetattr": lambda fd: _k().tcgetattr(fd),
-    "tcsetattr": lambda fd, when, attrs: _k().tcsetattr(fd, when, attrs),
-})
-time_proxy = Proxy(_time, {
-    "time": lambda: _W.time(),
-    "monotonic": lambda: _W.time(),
-    "sleep": lambda s: _W.block_until(lambda: False, _W.now + s, "sleep"),
-})
-fcntl_proxy = Proxy(_fcntl, {
-    "fcntl": lambda fd, cmd, arg=0: _k().fcntl(fd, cmd, arg),
-})
-
-_encoding = ["utf-8"]
-_installed = False
-_saved = {}
 
 _WINSZ = blessed.terminal.WINSZ
 
@@ -129,49 +225,37 @@ def _memo_term_init(self, kind=None, stream=None, force_styling=False, *a, **kw)
     for k, v in tpl.items():
         if type(v) is dict and k.startswith("_") and not v:
             d[k] = {}
-    import collections
     d["_keyboard_buf"] = collections.deque()
     self.__dict__.update(d)
 
 
+blessed.Terminal._height_and_width = _height_and_width
+if not _os.environ.get("CURTSIES_VERIF_NO_MEMO"):
+    blessed.Terminal.__init__ = _memo_term_init
+
+_REPO_READ_SIZE = getattr(curtsies.input, "READ_SIZE", None)
+
+
 def install():
-    global _installed
-    if _installed:
-        return
-    _installed = True
-    ci = curtsies.input
-    th = curtsies.termhelpers
-    for mod, name, val in (
-        (ci, "os", os_proxy), (ci, "select", select_proxy), (ci, "signal", signal_proxy),
-        (ci, "termios", termios_proxy), (ci, "tty", tty_proxy), (ci, "time", time_proxy),
-        (ci, "is_main_thread", lambda: _K.sig.is_main() and _K.sig.app_is_main),
-        (ci, "getpreferredencoding", lambda: _encoding[0]),
-        (th, "tty", tty_proxy), (th, "termios", termios_proxy),
-        (th, "fcntl", fcntl_proxy), (th, "os", os_proxy),
-        (blessed.Terminal, "_height_and_width", _height_and_width),
-    ):
-        _saved[(mod, name)] = getattr(mod, name)
-        setattr(mod, name, val)
-    _saved[(ci, "READ_SIZE")] = ci.READ_SIZE
-    if not _os.environ.get("CURTSIES_VERIF_NO_MEMO"):
-        blessed.Terminal.__init__ = _memo_term_init
+    """kept for callers: everything is installed at import"""
 
 
 def bind(world, kernel, encoding="utf-8", read_size=None):
     """Make `world` the target of every seam call (one run at a time per process)."""
     global _W, _K
-    install()
     _W, _K = world, kernel
     _encoding[0] = encoding
-    curtsies.input.READ_SIZE = read_size if read_size is not None else _saved[(curtsies.input, "READ_SIZE")]
+    if _REPO_READ_SIZE is not None:
+        # the read-size knob (only values the module's own assert allows); absent -> knob not applied
+        curtsies.input.READ_SIZE = read_size if read_size is not None else _REPO_READ_SIZE
 
 
 def unbind():
     global _W, _K
     _W = _K = None
-    curtsies.input.READ_SIZE = _saved[(curtsies.input, "READ_SIZE")]
+    if _REPO_READ_SIZE is not None:
+        curtsies.input.READ_SIZE = _REPO_READ_SIZE
 
 
 def repo_read_size():
-    install()
-    return _saved[(curtsies.input, "READ_SIZE")]
+    return _REPO_READ_SIZE
